@@ -29,8 +29,29 @@ def load_prop(prop):
     if engine.REPO_SRC not in sys.path:
         sys.path.insert(0, engine.REPO_SRC)
     import logging
-    logging.disable(logging.CRITICAL)
+    if os.environ.get("VERIF_LOG") == "debug":
+        # twin legs: every logger enabled down to DEBUG-1 and every record
+        # formatted (code that only runs, or only formats its arguments,
+        # when logging is on)
+        class _Fmt(logging.Handler):
+            def emit(self, record):
+                try:
+                    record.getMessage()
+                except Exception:
+                    pass        # as logging does: reported, not raised
+
+        root = logging.getLogger()
+        root.handlers[:] = [_Fmt()]
+        root.setLevel(1)
+    else:
+        logging.disable(logging.CRITICAL)
     mod = importlib.import_module("props." + prop.lower())
+    if os.environ.get("VERIF_LOG") == "debug":
+        # (the nfc package pins its own logger levels at import time)
+        for name, lg in list(logging.root.manager.loggerDict.items()):
+            if name.split(".")[0] == "nfc" and isinstance(lg, logging.Logger):
+                lg.setLevel(1)
+        logging.getLogger("nfc").setLevel(1)
     if hasattr(mod, "setup"):
         mod.setup()
     return mod
